@@ -20,7 +20,7 @@ MAIN_LEAVES = (("Y",), ("Raise", 2), ("Reraise",), ("Ret", 7))
 # tier -> layers (main nodes, exactly?, script depth, arm programs); the layers of one kind are disjoint in the wrapped program
 BOUNDS = {
     "quick": {"fin": [(4, False, 4, AUX_SMALL)], "cont": [(3, False, 4, AUX_SMALL)]},
-    "thorough": {"fin": [(4, False, 5, AUX_FULL), (5, True, 3, AUX_FULL)], "cont": [(3, False, 4, AUX_FULL), (4, True, 4, AUX_SMALL)]},
+    "thorough": {"fin": [(4, False, 5, AUX_FULL), (5, True, 3, AUX_FULL)], "cont": [(3, False, 4, AUX_FULL), (4, True, 3, AUX_SMALL)]},
 }
 RULE = (
     "G: wrapped programs of the grammar {Y, YF, Seq, Try(except Exception|BaseException/else/finally), Raise, Reraise, Return} with <= N nodes x "
@@ -28,7 +28,7 @@ RULE = (
     "{send(None), send(1), throw(E1), throw(RequestStop), throw(RequestAbort), throw(PlanHalt), close(); close() first}; entry points: "
     "finalize_wrapper (final_plan as generator function and as instance), finalize_decorator, contingency_wrapper (except/else/final each "
     "absent or present, auto_raise both).  quick: finalize N<=4,D=4 and contingency N<=3,D=4, arms from {Y, Y;raise}; thorough: finalize N<=4,D=5 and "
-    "N=5,D=3, contingency N<=3,D=4 with all four arm programs and N=4,D=4 with arms from {Y, Y;raise}.  Oracle: identical interaction trace + program logs against a reference generator "
+    "N=5,D=3, contingency N<=3,D=4 with all four arm programs and N=4,D=3 with arms from {Y, Y;raise}.  Oracle: identical interaction trace + program logs against a reference generator "
     "written with plain try/except/else/finally in which cleanup is skipped on GeneratorExit; plus counters: cleanup body entered at most "
     "once, exactly once on every return/raise exit of a script without close/PlanHalt, except and else bodies never both.  Don't-cares "
     "(either reading accepted): whether a thrown PlanHalt counts as 'closed'; whether cleanup runs when close() lands inside the "
